@@ -265,6 +265,9 @@ def gen_base(rng, sid, family="base", n=None, q=None, refresh="auto", pop=None, 
                     "budget": 0, "bias": rng.choice([[], [], ["dp:send"], ["fmt:send"], ["hm:req"], ["cl:"], ["rg:start"],
                                                       ["bar:exit"], ["dist:"], ["er:"]])},
           "stats": False}
+    if fault and rng.random() < 0.3:
+        # the width distributors are the last to move: a render error then finds them between collecting and handing back
+        sc["sched"]["bias"] = ["dist:"]
     if rng.random() < 0.08:
         # the clients (and Wait's own cancellation) run ahead of the container and time passes only when nothing else can move
         sc["sched"]["bias"] = ["ct:", "hm:", "rg:", "er:", "bar:", "dist:", "fmt:", "dp:", "ls:tick"]
@@ -524,6 +527,21 @@ def family(name, rng, sid):
         w = next(i for i, o in enumerate(sc["clients"][0]) if o["op"] == "wait")
         if rng.random() < 0.85:
             sc["clients"][0].insert(rng.randint(0, w), {"op": "delayend"})
+        return sc
+    if name == "rmtail":
+        # every bar leaves the container when it finishes (remove-on-complete, or aborted with drop); lines are written when
+        # the bars' goroutines have gone but their last rows may still be on the screen, and after the container is empty
+        sc = gen_base(rng, sid, "rmtail", tail=True, clients=1, pop=False, ext=rng.random() < 0.3)
+        prog = sc["clients"][0]
+        for o in prog:
+            if o["op"] == "add":
+                o["rm"] = True
+            elif o["op"] == "abort":
+                o["flag"] = True
+        w = next(i for i, o in enumerate(prog) if o["op"] == "wait")
+        for _ in range(rng.randint(0, 2)):
+            prog.insert(w, {"op": "pause"})   # a refresh period or two before Wait: the container idles with nothing to draw
+        sc["sched"]["tickw"] = rng.choice([1, 2])
         return sc
     if name == "tail":
         sc = gen_base(rng, sid, "tail", tail=True, clients=1, pop=rng.random() < 0.2)
